@@ -42,13 +42,42 @@ func NewTMemoryOutputBuffer(size uint) *TMemoryOutputBuffer {
 // Write the data to the buffer. Returns ErrTooLarge if the write would cause
 // the buffer to exceed its limit.
 func (f *TMemoryOutputBuffer) Write(buf []byte) (int, error) {
-	if f.limit > 0 && uint(len(buf)+f.Len()) > f.limit {
+	if err := f.checkSize(len(buf)); err != nil {
+		return 0, err
+	}
+	return f.TMemoryBuffer.Write(buf)
+}
+
+// WriteByte writes a single byte to the buffer, subject to the same limit as
+// Write. Thrift protocols use this instead of Write on transports which
+// provide it.
+func (f *TMemoryOutputBuffer) WriteByte(c byte) error {
+	if err := f.checkSize(1); err != nil {
+		return err
+	}
+	return f.TMemoryBuffer.WriteByte(c)
+}
+
+// WriteString writes the string to the buffer, subject to the same limit as
+// Write. Thrift protocols use this instead of Write on transports which
+// provide it.
+func (f *TMemoryOutputBuffer) WriteString(s string) (int, error) {
+	if err := f.checkSize(len(s)); err != nil {
+		return 0, err
+	}
+	return f.TMemoryBuffer.WriteString(s)
+}
+
+// checkSize resets the buffer and returns ErrTooLarge if writing size more
+// bytes would cause the buffer to exceed its limit.
+func (f *TMemoryOutputBuffer) checkSize(size int) error {
+	if f.limit > 0 && uint(size+f.Len()) > f.limit {
 		f.Reset()
-		return 0, thrift.NewTTransportException(
+		return thrift.NewTTransportException(
 			TRANSPORT_EXCEPTION_REQUEST_TOO_LARGE,
 			fmt.Sprintf("Buffer size reached (%d)", f.limit))
 	}
-	return f.TMemoryBuffer.Write(buf)
+	return nil
 }
 
 // Reset clears the buffer
